@@ -6,17 +6,39 @@ namespace Layers
 
 /-! ## WordId packing -/
 
+theorem and_wordMask (w : Nat) : w &&& WORD_MASK = w % P28 := by
+  have := Nat.and_two_pow_sub_one_eq_mod w 28
+  simpa [WORD_MASK, P28] using this
+
+theorem and_0xf (d : Nat) : d &&& 0xf = d % 16 := by
+  have := Nat.and_two_pow_sub_one_eq_mod d 4
+  simpa using this
+
+/-- the bit-level packing is the arithmetic one -/
+theorem mkRaw_eq (d w : Nat) : mkRaw d w = (d % 16) * P28 + w % P28 := by
+  unfold mkRaw
+  rw [and_wordMask, and_0xf]
+  have h : w % P28 < 2 ^ 28 := by unfold P28; omega
+  rw [← Nat.shiftLeft_add_eq_or_of_lt h, Nat.shiftLeft_eq]
+  rfl
+
+theorem dicOf_eq (raw : Nat) : dicOf raw = raw / P28 % 256 := by
+  unfold dicOf P28
+  rw [Nat.shiftRight_eq_div_pow]
+
+theorem wordOf_eq (raw : Nat) : wordOf raw = raw % P28 := and_wordMask raw
+
 theorem dicOf_mkRaw (d w : Nat) (hd : d < 16) : dicOf (mkRaw d w) = d := by
-  unfold dicOf mkRaw P28; omega
+  rw [mkRaw_eq, dicOf_eq]; unfold P28; omega
 
 theorem wordOf_mkRaw (d w : Nat) (hw : w < P28) : wordOf (mkRaw d w) = w := by
-  unfold wordOf mkRaw P28 at *; omega
+  rw [mkRaw_eq, wordOf_eq]; unfold P28 at *; omega
 
 theorem wordOf_lt (raw : Nat) : wordOf raw < P28 := by
-  unfold wordOf P28; omega
+  rw [wordOf_eq]; unfold P28; omega
 
 theorem mkRaw_dicOf_wordOf (raw : Nat) (h : raw < 4294967296) : mkRaw (dicOf raw) (wordOf raw) = raw := by
-  unfold mkRaw dicOf wordOf P28; omega
+  rw [mkRaw_eq, dicOf_eq, wordOf_eq]; unfold P28; omega
 
 theorem widNew_ok (d w : Nat) (hd : d < 16) (hw : w < P28) : widNew d w = .ok (mkRaw d w) := by
   unfold widNew
@@ -51,6 +73,38 @@ theorem updateDictId_ok (split : List Nat) (dictId : Nat) (hd : dictId < 16) :
   split
   · exact widChecked_ok dictId (wordOf id) hd (wordOf_lt id)
   · rfl
+
+
+/-- the "simplified" `update_dict_id` of `seeded/C12b`: `WordId::from_raw((dict_id << 28) | id.as_raw())` for a user
+reference — the compiled dictionary bits are not masked out (NOT the code; kept to state what goes wrong with it) -/
+def restampOr (dictId id : Nat) : Nat := if dicOf id > 0 ∧ dicOf id ≠ 15 then (dictId <<< 28) ||| id else id
+
+/-- OR-ing without masking: a stored reference `(1, w)` lands in dictionary `d ||| 1` -/
+theorem restampOr_stored (d w : Nat) (hd : d < 16) (hw : w < P28) :
+    dicOf (restampOr d (mkRaw 1 w)) = d ||| 1 ∧ wordOf (restampOr d (mkRaw 1 w)) = w := by
+  have h1 : dicOf (mkRaw 1 w) = 1 := dicOf_mkRaw 1 w (by omega)
+  have hw' : w < 2 ^ 28 := by unfold P28 at hw; omega
+  have hraw : mkRaw 1 w = (1 <<< 28) ||| w := by
+    unfold mkRaw
+    rw [and_wordMask, Nat.mod_eq_of_lt hw]
+    rfl
+  have hor : d ||| 1 < 2 ^ 4 := Nat.or_lt_two_pow (by omega) (by omega)
+  have key : (d <<< 28) ||| mkRaw 1 w = (d ||| 1) * P28 + w := by
+    rw [hraw, ← Nat.or_assoc, ← Nat.shiftLeft_or_distrib, ← Nat.shiftLeft_add_eq_or_of_lt hw', Nat.shiftLeft_eq]
+    rfl
+  unfold restampOr
+  rw [h1, if_pos (by omega), key]
+  constructor
+  · rw [dicOf_eq]; unfold P28 at *; omega
+  · rw [wordOf_eq]; unfold P28 at *; omega
+
+/-- for in-range parts the packing is literally "dictionary in the top 4 bits, word below" and fits a `u32` -/
+theorem mkRaw_bits (d w : Nat) (hd : d < 16) (hw : w < P28) :
+    mkRaw d w = (d <<< 28) ||| w ∧ mkRaw d w < 4294967296 := by
+  constructor
+  · unfold mkRaw
+    rw [and_wordMask, and_0xf, Nat.mod_eq_of_lt hw, Nat.mod_eq_of_lt hd]
+  · rw [mkRaw_eq]; unfold P28 at *; omega
 
 /-! ## `LexiconSet::append` / ids are positions -/
 
